@@ -246,6 +246,28 @@ fn render(form: &str, r: &RunResult) -> String {
     s
 }
 
+/// 14 lines: a b r | a aa | t arr[0] arr[1] m r1 r2 m a b; a variable read several times must read the same
+fn render_frame(r: &RunResult) -> String {
+    match &r.outcome {
+        Outcome::Done => {}
+        Outcome::Error(k) => return format!("err {k}"),
+        o => return format!("other {}", o.tag()),
+    }
+    let body = match r.out.strip_suffix('\n') { Some(b) => b, None => return format!("other bad-output {}", hex(r.out.as_bytes())) };
+    let ls: Vec<&str> = body.split('\n').collect();
+    if ls.len() != 14 {
+        return format!("other bad-output {} lines: {}", ls.len(), hex(r.out.as_bytes()));
+    }
+    let same = |name: &str, idx: &[usize]| -> String {
+        let first = ls[idx[0]];
+        match idx.iter().find(|i| ls[**i] != first) {
+            None => format!("{name}={}", hex(first.as_bytes())),
+            Some(i) => format!("{name}=changed:{}/{}", hex(first.as_bytes()), hex(ls[*i].as_bytes())),
+        }
+    };
+    [same("a", &[0, 3, 5, 6, 12]), same("b", &[1, 7, 13]), same("r", &[2]), same("aa", &[4]), same("m", &[8, 11]), same("r1", &[9]), same("r2", &[10])].join(" ")
+}
+
 fn pairs(ctx: &mut Ctx) -> Vec<(String, String, &'static str)> {
     let quick = ctx.quick();
     let rng = &mut ctx.rng;
@@ -336,6 +358,32 @@ fn main() {
             });
         }
     }
+    // frame condition: strings are immutable values — after `..` (and after println, which is `str(x) .. "\n"`)
+    // the operands, aliases of them and containers sharing them still hold their bytes; operands are built at
+    // run time (heap objects, not static literals), every budget 1..8
+    let n_frame = if ctx.quick() { 60 } else { 700 };
+    let mut fi = 0usize;
+    let mut taken = 0usize;
+    while taken < n_frame && fi < ps.len() * 3 {
+        let (a, b, class) = &ps[(fi * 7907 + 13) % ps.len()];
+        fi += 1;
+        if a.contains('\n') || b.contains('\n') || a.len() + b.len() > 60 { continue; }
+        taken += 1;
+        let (a1, a2) = split(a, &mut ctx.rng);
+        let (b1, b2) = split(b, &mut ctx.rng);
+        for k in 1u32..=8 {
+            if !ctx.quick() || (taken + k as usize) % 2 == 0 {
+                let rng = &mut ctx.rng;
+                let src = format!(
+                    "let a = {} .. {}\nlet b = {} .. {}\nlet r = a .. b\nprintln(a)\nprintln(b)\nprintln(r)\nlet aa = a .. a\nprintln(a)\nprintln(aa)\nlet t = a\nlet arr = [a, b]\nlet m = a .. b\nlet r1 = m .. a\nlet r2 = m .. b\nprintln(t)\nprintln(arr[0])\nprintln(arr[1])\nprintln(m)\nprintln(r1)\nprintln(r2)\nprintln(m)\nprintln(a)\nprintln(b)\n",
+                    abra_lit(&a1, rng), abra_lit(&a2, rng), abra_lit(&b1, rng), abra_lit(&b2, rng));
+                jobs.push(Job {
+                    req: format!("str frame {k} {} {} {} {} #frame", hex(a1.as_bytes()), hex(a2.as_bytes()), hex(b1.as_bytes()), hex(b2.as_bytes())),
+                    src, form: "frame", class, k, a: a.clone(), b: b.clone(),
+                });
+            }
+        }
+    }
     // a complete collection between every two VM steps (budget 1), operands built at run time
     let n_full = if ctx.quick() { 70 } else { 600 };
     for i in 0..n_full {
@@ -356,6 +404,9 @@ fn main() {
             return render("heap", &r);
         }
         let r = run_program_opts(&j.src, &RunOpts { budgets: vec![j.k], max_steps: 20_000_000, files: vec![] });
+        if j.form == "frame" {
+            return render_frame(&r);
+        }
         render(j.form, &r)
     });
     for (j, imp) in jobs.iter().zip(results) {
@@ -371,7 +422,11 @@ fn main() {
         if ab.len() + bb.len() + 1 > j.k as usize { ctx.count("sliced:concat-spans-budgets"); }
         if common + 1 > j.k as usize { ctx.count("sliced:compare-spans-budgets"); }
         if !j.a.is_ascii() || !j.b.is_ascii() { ctx.count("bytes:non-ascii"); }
-        let spec = expected(ab, bb);
+        let spec = if j.form == "frame" {
+            let cat = |x: &[u8], y: &[u8]| { let mut v = x.to_vec(); v.extend_from_slice(y); v };
+            let m = cat(ab, bb);
+            format!("a={} b={} r={} aa={} m={} r1={} r2={}", hex(ab), hex(bb), hex(&m), hex(&cat(ab, ab)), hex(&m), hex(&cat(&m, ab)), hex(&cat(&m, bb)))
+        } else { expected(ab, bb) };
         if imp != spec {
             ctx.spec_fail(format!(
                 "budget {} form {}: a={:?} b={:?}: implementation `{imp}`, byte-exact answer `{spec}`\n--- program\n{}",
